@@ -73,13 +73,15 @@ func tryRun(w *W, idx int, prop int) {
 	if prop == 5 {
 		names = []string{"skeleton", "two-leaf", "mixed", "skeleton", "two-leaf", "deciding-late"}
 	} else {
-		names = []string{"skeleton", "two-leaf", "mixed", "failing", "skeleton", "deciding-late", "wide-deep", "wrong-type-completions"}
+		names = []string{"skeleton", "two-leaf", "mixed", "failing", "skeleton", "deciding-late", "wide-deep", "wrong-type-completions", "if-result-then-failing"}
 	}
 	name := names[k%len(names)]
 	var tree *Node
 	switch name {
 	case "deciding-late":
 		tree = decidingLate(r)
+	case "if-result-then-failing":
+		tree = ifResultThenFailing(r)
 	case "wrong-type-completions":
 		g := stratumByName("mixed").Make(r)
 		tree = g.Root(2 + r.Intn(3))
@@ -129,6 +131,53 @@ func decidingLate(r *rand.Rand) *Node {
 	default:
 		return and(If(leaf(0), and(leaf(1), leaf(2)), or(leaf(1), leaf(3))), Op("=", TBool, leaf(4), or(leaf(2), leaf(0))))
 	}
+}
+
+// ifResultThenFailing: an and/or whose deciding operand is the result of an if (nested 1-3 deep, in either
+// branch), followed by operands that fail or have effects when evaluated.
+func ifResultThenFailing(r *rand.Rand) *Node {
+	bv := func() *Node { return Var(fmt.Sprintf("b%d", r.Intn(5)), TBool) }
+	var nest func(d int) *Node
+	nest = func(d int) *Node {
+		if d == 0 {
+			return bv()
+		}
+		inner := nest(d - 1)
+		other := Node(*Lit(r.Intn(2) == 0))
+		o := &other
+		if r.Intn(2) == 0 {
+			o = bv()
+		}
+		if r.Intn(2) == 0 {
+			return If(bv(), inner, o)
+		}
+		return If(bv(), o, inner)
+	}
+	failing := func() *Node {
+		switch r.Intn(4) {
+		case 0:
+			return Op("cfail", TBool)
+		case 1:
+			return Op(">", TBool, Op("/", TInt, Lit(int64(1)), Lit(int64(0))), Lit(int64(1)))
+		case 2:
+			return Op("cb", TBool, bv())
+		default:
+			return Op("not", TBool, Lit(int64(1)))
+		}
+	}
+	name := []string{"and", "or", "&&", "||"}[r.Intn(4)]
+	ch := []*Node{nest(1 + r.Intn(3))}
+	if r.Intn(3) == 0 {
+		ch = append([]*Node{bv()}, ch...)
+	}
+	for i := 0; i < 1+r.Intn(2); i++ {
+		ch = append(ch, failing())
+	}
+	t := Op(name, TBool, ch...)
+	if r.Intn(3) == 0 {
+		t = Op([]string{"and", "or"}[r.Intn(2)], TBool, t, bv())
+	}
+	return t
 }
 
 type tryVariant struct {
@@ -292,14 +341,15 @@ func tryEnumProgram(w *W, tree *Node, vars []string, prop int) {
 		un := unavailableOf(b, vars)
 		kenv := refEnv(b)
 		kv, kerr := kenv.Kleene(tree)
-		for _, tv := range tvs {
+		for vi, tv := range tvs {
 			o := tryCall(w, tv, b, CallTryEval)
 			if o.Panic != nil {
 				continue
 			}
 			if prop == 5 {
 				judgeKleene(w, tv, tree, b, un, kv, kerr, o, "enum")
-			} else {
+			} else if len(vars) <= 4 || (a+vi)%4 == 0 {
+				// completions are the expensive part: with many variables a quarter of the (assignment, variant) pairs is completed
 				judgeSoundness(w, r, tv, tree, tys, b, un, o, false, 64, "enum")
 			}
 		}
